@@ -15,7 +15,7 @@ From Coq Require Import ZArith NArith List String Bool.
 From Flocq Require Import IEEE754.Binary IEEE754.Bits.
 From GV Require Import Base.Result Model.Num Model.RuntimeIndex Gen.PanicSites
   Proofs.C07.Arith Proofs.C07.Runtime Proofs.C07.Simple Proofs.C07.Basic Proofs.C07.Depth Proofs.C07.Run
-  Proofs.C07.Coverage.
+  Proofs.C07.Regress Proofs.C07.Coverage.
 Import ListNotations.
 Local Open Scope N_scope.
 
@@ -25,7 +25,7 @@ Definition C07_full_statement (state : Type) (step : state -> res state) (Inv : 
 
 Theorem C07_run_from_step : forall state step Inv,
   step_safe state step Inv -> C07_full_statement state step Inv.
-Proof. intros state step Inv H. split; [exact H | exact (run_no_panic state step Inv H)]. Qed.
+Proof. exact run_from_step. Qed.
 Print Assumptions C07_run_from_step.
 
 (* ---- numbers: every GarnishNumber operation, every operand pair *)
@@ -88,7 +88,7 @@ Print Assumptions C07_simple_concat_slice_window.
 
 Theorem C07_iterators : forall a b,
   (no_panic (size_iter_next a b) /\ no_panic (size_iter_next_back a b)) /\ no_panic (vec_iter_next a b).
-Proof. intros a b. split; [exact (size_iter_no_panic a b) | exact (vec_iter_no_panic a b)]. Qed.
+Proof. exact iterators_no_panic. Qed.
 Print Assumptions C07_iterators.
 
 (* ---- BasicGarnishData, under the block layout / run invariants *)
@@ -124,12 +124,7 @@ Theorem C07_block_slices : forall heap_len d i len n,
   (run_ok d i n -> no_panic (data_run_slice heap_len d i n) /\ no_panic (bytes_conv_slice heap_len i n)) /\
   (run_ok d i (2 * len) -> no_panic (basic_end_list_slice heap_len d i len) /\
                            (n <= len -> no_panic (basic_assoc_slice heap_len d i len n))).
-Proof.
-  intros heap_len d i len n Hok. split; [exact (block_prefix_slice_no_panic heap_len d Hok)|]. split.
-  - intros Hr. split; [exact (data_run_slice_no_panic heap_len d i n Hok Hr) | exact (bytes_conv_slice_no_panic heap_len d i n Hok Hr)].
-  - intros Hr. split; [exact (basic_end_list_slice_no_panic heap_len d i len Hok Hr)
-                      | intros Hn; exact (basic_assoc_slice_no_panic heap_len d i len n Hok Hr Hn)].
-Qed.
+Proof. exact block_slices_no_panic. Qed.
 Print Assumptions C07_block_slices.
 
 Theorem C07_pop_frame : forall frame, 1 <= frame -> no_panic (pop_frame_index frame).
@@ -167,11 +162,7 @@ Theorem C07_fixed_defects_refuted :
   concat_iter_window_v0 3 (Int 2) (Int 0) = Panic site_concat_iter /\
   simple_concat_slice_window_v0 3 2 = Panic site_concat_window /\
   raw_shift_v0 true (Int 1) (Int 32) = Panic site_num_prim.
-Proof.
-  split; [exact range_list_len_v0_refuted|]. split; [exact basic_start_list_alloc_v0_refuted|].
-  split; [exact extents_v0_refuted|]. split; [exact concat_iter_v0_refuted|].
-  split; [exact (proj1 simple_concat_slice_window_v0_refuted) | exact (proj1 raw_shift_v0_refuted)].
-Qed.
+Proof. exact fixed_defects_refuted. Qed.
 Print Assumptions C07_fixed_defects_refuted.
 
 (* ---- non-vacuity: the hypotheses are met by concrete states and the interesting branches are taken *)
